@@ -313,9 +313,16 @@ func runStreamOne(e *Env, i int, prop string) (cases []string) {
 		if cs.readAll && fmt.Sprint(cs.read) != fmt.Sprint(want) {
 			fail("C09-sequence", fmt.Sprintf("stream %d: client read %v, handler wrote %v", cs.tag, cs.read, want))
 		}
-		r.log.mu.Lock()
-		got := append([]int(nil), r.log.srvRead[cs.tag]...)
-		r.log.mu.Unlock()
+		// the last message written need not have been echoed: give the handler time to read it
+		var got []int
+		for deadline := time.Now().Add(10 * time.Second); ; time.Sleep(200 * time.Microsecond) {
+			r.log.mu.Lock()
+			got = append([]int(nil), r.log.srvRead[cs.tag]...)
+			r.log.mu.Unlock()
+			if len(got) >= len(cs.wrote) || time.Now().After(deadline) {
+				break
+			}
+		}
 		if fmt.Sprint(got) != fmt.Sprint(cs.wrote) {
 			fail("C09-sequence", fmt.Sprintf("stream %d: handler read %v, client wrote %v", cs.tag, got, cs.wrote))
 		}
